@@ -31,10 +31,10 @@ var (
 	uHosts   = []string{"example.com", "EXAMPLE.com", "example.org", "example.com.", "127.0.0.1", "[::1]", "[::1:8080]", "[fe80::1%25en0]"}
 	uPorts   = []string{"", ":", ":80", ":443", ":8080", ":080", ":65535", ":65536", ":70000"}
 	uPaths   = []string{"", "/", "/a", "/A", "/%61", "/%41", "/a/./b", "/a/b", "/a/c/../b", "/a/%2e/b", "/a/c/%2e%2e/b", "/a/c/%2E%2E/b",
-		"/~x", "/%7Ex", "/%7ex", "/a%2Fb", "/a%2fb", "/a//b", "/a/", "/%E9", "/%e9", "/\xe9", "/%C3%A9", "/é", "/a/../../b", "/..",
+		"/~x", "/%7Ex", "/%7ex", "/a%2Fb", "/a%2fb", "/a//b", "/a/", "/%E9", "/%e9", "/\xe9", "/%C3%A9", "/é", "/\xe2\x80\xa6", "/a/../../b", "/..",
 		"/u_d-e.f", "/u%5Fd%2De%2Ef", "/u%5fd%2de%2ef",
 		"/d[1]", "/d%5B1%5D", "/m;v=1", "/m%3Bv%3D1", "/x^y", "/x%5Ey", "/p:q@r", "/p%3Aq%40r"}
-	uQueries = []string{"", "?", "?q=1", "?q=%31", "?Q=1", "?q=%E9", "?q=%e9", "?q=\xe9", "?q=é", "?q=%C3%A9", "?q=\xef\xbf\xbd", "?q=%EF%BF%BD", "?a=1&b=2", "?b=2&a=1", "?a=1&&b=2", "?a=1&b=2&", "?&a=1&b=2", "?&", "?&&", "?q=a+b", "?q=a%2Bb", "?q=a%2bb", "?q=a%20b",
+	uQueries = []string{"", "?", "?q=1", "?q=%31", "?Q=1", "?q=%E9", "?q=%e9", "?q=\xe9", "?q=é", "?q=%C3%A9", "?q=\xef\xbf\xbd", "?q=%EF%BF%BD", "?q=\xe2\x80\xa6", "?q=\x80", "?a=1&b=2", "?b=2&a=1", "?a=1&&b=2", "?a=1&b=2&", "?&a=1&b=2", "?&", "?&&", "?q=a+b", "?q=a%2Bb", "?q=a%2bb", "?q=a%20b",
 		"?k_1=v-2", "?k%5F1=v%2D2",
 		"?i[]=1", "?i%5B%5D=1", "?q=a%26b", "?q=a%3Db", "?q=a/b?c", "?q=a%2Fb%3Fc"}
 	uFrags = []string{"", "#f"}
